@@ -172,6 +172,14 @@ FairSpec == Spec /\ WF_vars(Next)       \* for the termination property of C18
 
 DepthConstraint == Len(m.stack) <= MaxDepth
 
+\* C18 as a temporal property of the whole exploration: every program that is generated is expanded to
+\* the end ("done") or to the recursive-calibration error; a program the generator excludes (see the
+\* header) stays in the last generator state.
+Excluded == /\ phase = "gen" /\ Len(picks) = NDims(fam)
+            /\ LET prog == Assemble(fam, picks) IN
+               ~AllowUnboundedGrowth /\ ExpandFix(SetOfHistory(prog.g), SetOfHistory(prog.mm), prog.b) = ResDeep
+EveryExpansionTerminates == <>(Terminal \/ Excluded)
+
 \* ------------------------------------------------------------------ emitter
 EmitMode == IF TRUE \in MapModes THEN TRUE ELSE FALSE
 PerInstr == [n \in DOMAIN src |-> ExpandOne(gc, mc, src[n])]
